@@ -49,6 +49,14 @@ def rule_err_map(ctx, cfg, F):
                     c = op_const(lab["b"]) if op_const(lab["b"]) is not None else op_const(lab["a"])
                     if c is not None:
                         yield ("code", c, lab["truth"] if lab["op"] == "Eq" else not lab["truth"])
+                elif lab["kind"] == "callbool" and lab["callee"].endswith("::channel_is_closed"):
+                    # the error type's own closed predicate (its body is checked to test the closed variant)
+                    if lab["truth"]:
+                        yield ("variant", "ChannelClosed", True)
+                elif lab["kind"] == "val" and lab["value"] == EAGAIN:
+                    names = [e.get("n") for e in lab["place"].get("p", []) if isinstance(e, dict) and "v" in e]
+                    if "Errno" in names:
+                        yield ("code", EAGAIN, True)
 
         def block_fact(b):
             for st in f.stmts(b):
